@@ -70,6 +70,13 @@ def gen_input(rng, style=None, nscaf=None, hap_names=False, maxrows=8, both_stra
 
 
 # ------------------------------------------------------------ PretextView model
+def scale_input(inp, k):
+    """the same assembly with every length multiplied by k (fragments keep abutting / overlapping as before)"""
+    return {"scaffolds": [{"name": sc["name"], "rows": [
+        ["G", r[1] * k, r[2]] if r[0] == "G" else ["F", r[1], (r[2] - 1) * k + 1, r[3] * k, r[4], list(r[5])]
+        for r in sc["rows"]]} for sc in inp["scaffolds"]]}
+
+
 def choose_bpt(rng, total):
     ntex = rng.choice([3, 8, 20, 64, 200, 1000, 32768])
     if rng.random() < 0.12:
@@ -113,9 +120,11 @@ def gen_pieces(rng, inp, bpt_str, cut_prob=0.6, absent_prob=0.5):
     return pieces
 
 
-def gen_pretext(rng, inp, profile="edit", tagger=None):
+def gen_pretext(rng, inp, profile="edit", tagger=None, max_texels=None):
     total = sum(sc_len(sc) for sc in inp["scaffolds"])
     bpt_str = choose_bpt(rng, max(total, 1))
+    if max_texels and total / float(bpt_str) > max_texels:
+        bpt_str = f"{float(Fraction(total, max_texels)):.6f}"
     if profile == "null":
         pieces = gen_pieces(rng, inp, bpt_str, cut_prob=0.0)
         groups = [[p] for p in pieces]
